@@ -112,6 +112,8 @@ def handleC18 (c : Case) : Verdict :=
       let sig :=
         if labels.contains "filter-include" && labels.contains "pre-symlink-to-outside-dir" then "C18:include-filter:symlinked-ancestor"
         else if labels.contains "duplicate-names" && labels.contains "symlink-node" then "C18:duplicate-name:symlink-and-other-node"
+        else if labels.contains "hardlink" && labels.contains "ow-never" && labels.contains "pre-symlink-to-outside-file" then
+          "C18:hardlink-to-preexisting-symlink:metadata-follows"
         else "C18:outside-modified:other"
       .specfalse sig s!"{lbl} changed={chg}"
     else
